@@ -80,6 +80,7 @@ type Scenario struct {
 	ClockFrozen bool           // the clock does not advance between readings
 	PublicKey   *rsa.PublicKey // overrides the key given to the client (default: the server's)
 	Handler     bool           // register a custom server-request handler that accepts everything
+	NoWarnings  bool           // the application did not set a Warnings channel (it is optional)
 	Setup       func(w *World)
 	// AfterConnect runs in the main thread right after CreateConnection returned.
 	AfterConnect        func(w *World)
@@ -246,7 +247,9 @@ func Run(sc *Scenario, prefix []int, tracing bool) *World {
 			w.ConnErr = err
 			return
 		}
-		m.Warnings = w.Warn
+		if !sc.NoWarnings {
+			m.Warnings = w.Warn
+		}
 		if sc.Handler {
 			m.AddCustomServerRequestHandler(func(i any) bool {
 				w.Handled = append(w.Handled, fmt.Sprintf("%T", i))
